@@ -640,7 +640,7 @@ theorem progress_spec (s : St) (x : Stage) (hx : x.chain = true) (hn : s.nxt = x
     (hc : s.cur = x ∨ (s.cur = .failed ∧ x ≠ .c2)) :
     (progress s).cur = x.succ ∧ (progress s).nxt = x.succ.succ ∧ (progress s).err = s.err := by
   cases x <;> simp [Stage.chain] at hx <;> rcases hc with hc | ⟨hc, hne⟩ <;>
-    simp_all [progress, Stage.succ, Stage.ofVal?, Stage.all, Stage.val, St.raise]
+    simp_all [progress, Stage.succ, Stage.ofVal?, Stage.all, Stage.val]
 
 /-- `f` leaves `nxt` alone and either leaves `cur` alone or sets it to FAILED. -/
 def Soft (f : St → St) : Prop := ∀ s, ((f s).cur = s.cur ∨ (f s).cur = .failed) ∧ (f s).nxt = s.nxt
@@ -1325,6 +1325,529 @@ theorem C19_tap1_progress_only_after_success (c : Cfg) (s : St) (t : Int) (i : I
         · rw [ho] at hadv; exact succ_ne_notStarted s.cur hch hadv.symm
 
 end Tap1
+
+/-! ## 6. TAP003: the same skeleton (InsiderKillChain) -/
+namespace Tap3
+
+/-- Successor in the part of the chain the agent implements: `RECONNAISSANCE → PLANNING → ACCESS → MANIPULATION →
+EXPLOIT → SUCCEEDED`; `NOT_STARTED →` first stage, `SUCCEEDED → NOT_STARTED`. (EMBED … ERASE are enum members the agent
+never enters; their successor is immaterial.) -/
+def Stage.succ : Stage → Stage
+  | .reconnaissance => .planning | .planning => .access | .access => .manipulation | .manipulation => .exploit
+  | .exploit => .succeeded | .notStarted => .reconnaissance | .succeeded => .notStarted | .failed => .failed
+  | .embed => .conceal | .conceal => .extract | .extract => .erase | .erase => .failed
+
+def Stage.chain : Stage → Bool
+  | .reconnaissance | .planning | .access | .manipulation | .exploit => true
+  | _ => false
+
+def Inv (s : St) : Prop := s.cur = .failed ∨ s.nxt = s.cur.succ
+
+def Allowed (c : Cfg) (a b : Stage) : Prop :=
+  b = a ∨ (a.chain = true ∧ b = a.succ) ∨ b = .failed ∨ (a = .notStarted ∧ b = .reconnaissance) ∨
+  (c.repeatKillChain = true ∧ (a = .succeeded ∨ a = .failed) ∧ (b = .notStarted ∨ b = .reconnaissance)) ∨
+  (c.repeatKillChain = true ∧ c.repeatStages = false ∧ b = .notStarted)
+
+def Res (x : Stage) (s : St) : Prop :=
+  (s.cur = x ∧ s.nxt = x.succ) ∨ (s.cur = x.succ ∧ s.nxt = x.succ.succ) ∨ s.cur = .failed
+
+theorem progress_spec (s : St) (x : Stage) (hx : x.chain = true) (hn : s.nxt = x.succ) (hc : s.cur = x) :
+    (progress s).cur = x.succ ∧ (progress s).nxt = x.succ.succ ∧ (progress s).err = s.err := by
+  cases x <;> simp [Stage.chain] at hx <;>
+    simp_all [progress, Stage.succ, Stage.ofVal?, Stage.all, Stage.val]
+
+/-- `f` leaves `nxt` alone and either leaves `cur` alone or sets it to FAILED. -/
+def Soft (f : St → St) : Prop := ∀ s, ((f s).cur = s.cur ∨ (f s).cur = .failed) ∧ (f s).nxt = s.nxt
+
+theorem Soft.comp {f g : St → St} (hf : Soft f) (hg : Soft g) : Soft (fun s => g (f s)) := by
+  intro s
+  obtain ⟨h1, h2⟩ := hf s
+  obtain ⟨h3, h4⟩ := hg (f s)
+  refine ⟨?_, by rw [h4, h2]⟩
+  rcases h3 with h3 | h3
+  · rcases h1 with h1 | h1
+    · exact Or.inl (by rw [h3, h1])
+    · exact Or.inr (by rw [h3, h1])
+  · exact Or.inr h3
+
+theorem soft_failStage (c : Cfg) : Soft (failStage c) := by
+  intro s; unfold failStage; split <;> simp
+
+theorem soft_setNext (c : Cfg) (b d : Int) : Soft (fun s => setNext c s b d) := by
+  intro s; simp only [setNext, St.raise]; split <;> simp
+
+theorem soft_manipBegin : Soft manipBegin := by
+  intro s; unfold manipBegin; split <;> simp
+
+theorem soft_manipAct (c : Cfg) : Soft (manipAct c) := by
+  intro s; unfold manipAct; repeat' split
+  all_goals simp [St.raise]
+
+theorem soft_exploitAct (r : Nat) : Soft (exploitAct r) := by
+  intro s; unfold exploitAct; split <;> simp
+
+theorem res_of_soft_noprogress (x : Stage) (s' s : St)
+    (hs : (s'.cur = s.cur ∨ s'.cur = .failed) ∧ s'.nxt = s.nxt) (h : s.cur = x) (hn : s.nxt = x.succ) :
+    Res x s' := by
+  rcases hs.1 with h1 | h1
+  · exact Or.inl ⟨by rw [h1, h], by rw [hs.2, hn]⟩
+  · exact Or.inr (Or.inr h1)
+
+theorem exploit_skip (c : Cfg) (s : St) (h : s.cur ≠ .exploit) : exploit c s = s := by simp [exploit, h]
+theorem manipulation_skip (c : Cfg) (i : In) (s : St) (h : s.cur ≠ .manipulation) : manipulation c i s = s := by
+  simp [manipulation, h]
+theorem access_skip (c : Cfg) (i : In) (s : St) (h : s.cur ≠ .access) : access c i s = s := by simp [access, h]
+theorem planning_skip (c : Cfg) (i : In) (s : St) (h : s.cur ≠ .planning) : planning c i s = s := by simp [planning, h]
+theorem reconnaissance_skip (s : St) (h : s.cur ≠ .reconnaissance) : reconnaissance s = s := by simp [reconnaissance, h]
+theorem tapStart_skip (s : St) (h : s.cur ≠ .notStarted) : tapStart s = s := by simp [tapStart, h]
+
+theorem fail_res (c : Cfg) (x : Stage) (s : St) (h : s.cur = x) (hn : s.nxt = x.succ) :
+    Res x (failStage c { s with chosen := Act.nothing }) :=
+  res_of_soft_noprogress x _ s
+    ((Soft.comp (fun s => by simp : Soft (fun s => { s with chosen := Act.nothing })) (soft_failStage c)) s) h hn
+
+theorem exploit_fire (c : Cfg) (s : St) (h : s.cur = .exploit) (hn : s.nxt = Stage.succ .exploit) :
+    Res .exploit (exploit c s) := by
+  unfold exploit
+  rw [if_neg (by simp [h])]
+  split
+  · exact Or.inl ⟨h, hn⟩
+  · rename_i r _
+    split
+    · exact Or.inl ⟨h, hn⟩
+    · have hs := soft_exploitAct r { s with numAcls := c.acls.length }
+      have hc : (exploitAct r { s with numAcls := c.acls.length }).cur = .exploit := by
+        rcases hs.1 with h1 | h1
+        · rw [h1]; exact h
+        · unfold exploitAct at h1 ⊢; split <;> simp_all
+      unfold exploitFinish
+      split
+      · have := progress_spec { exploitAct r { s with numAcls := c.acls.length } with curAcl := 0 } .exploit rfl
+          (by simp only; rw [hs.2]; exact hn) hc
+        exact Or.inr (Or.inl ⟨this.1, this.2.1⟩)
+      · exact Or.inl ⟨hc, by rw [hs.2]; exact hn⟩
+
+theorem manipulation_fire (c : Cfg) (i : In) (s : St) (h : s.cur = .manipulation) (hn : s.nxt = Stage.succ .manipulation) :
+    Res .manipulation (manipulation c i s) := by
+  unfold manipulation
+  rw [if_neg (by simp [h])]
+  split
+  · have hcn : (manipAct c (manipBegin s)).cur = .manipulation ∧ (manipAct c (manipBegin s)).nxt = Stage.succ .manipulation := by
+      have hb : (manipBegin s).cur = s.cur ∧ (manipBegin s).nxt = s.nxt := by unfold manipBegin; split <;> simp
+      have ha : ∀ s', (manipAct c s').cur = s'.cur ∧ (manipAct c s').nxt = s'.nxt := by
+        intro s'; unfold manipAct; repeat' split
+        all_goals simp [St.raise]
+      have := ha (manipBegin s)
+      exact ⟨by rw [this.1, hb.1, h], by rw [this.2, hb.2, hn]⟩
+    unfold manipFinish
+    split
+    · have := progress_spec (manipAct c (manipBegin s)) .manipulation rfl hcn.2 hcn.1
+      exact Or.inr (Or.inl ⟨this.1, this.2.1⟩)
+    · exact Or.inl hcn
+  · exact fail_res c .manipulation s h hn
+
+theorem access_fire (c : Cfg) (i : In) (s : St) (h : s.cur = .access) (hn : s.nxt = Stage.succ .access) :
+    Res .access (access c i s) := by
+  unfold access
+  rw [if_neg (by simp [h])]
+  split
+  · have := progress_spec s .access rfl hn h
+    exact Or.inr (Or.inl ⟨this.1, this.2.1⟩)
+  · exact fail_res c .access s h hn
+
+theorem planning_fire (c : Cfg) (i : In) (s : St) (h : s.cur = .planning) (hn : s.nxt = Stage.succ .planning) :
+    Res .planning (planning c i s) := by
+  unfold planning
+  rw [if_neg (by simp [h])]
+  split
+  · have := progress_spec (if s.planned then s else { s with creds := c.creds0, planned := true }) .planning rfl
+      (by split <;> exact hn) (by split <;> exact h)
+    exact Or.inr (Or.inl ⟨this.1, this.2.1⟩)
+  · exact fail_res c .planning s h hn
+
+theorem reconnaissance_fire (s : St) (h : s.cur = .reconnaissance) (hn : s.nxt = Stage.succ .reconnaissance) :
+    Res .reconnaissance (reconnaissance s) := by
+  unfold reconnaissance
+  rw [if_neg (by simp [h])]
+  have := progress_spec { s with chosen := Act.nothing } .reconnaissance rfl hn h
+  exact Or.inr (Or.inl ⟨this.1, this.2.1⟩)
+
+theorem tapStart_fire (s : St) (h : s.cur = .notStarted) :
+    (tapStart s).cur = .reconnaissance ∧ (tapStart s).nxt = .planning := by
+  simp [tapStart, h, Stage.ofVal?, Stage.all, Stage.val]
+
+def rank : Stage → Nat
+  | .notStarted => 0 | .reconnaissance => 1 | .planning => 2 | .access => 3 | .manipulation => 4 | .exploit => 5
+  | .succeeded => 7 | .failed => 7 | .embed => 8 | .conceal => 8 | .extract => 8 | .erase => 8
+
+def bodyAt (c : Cfg) (i : In) : Nat → St → St
+  | 0 => tapStart | 1 => reconnaissance | 2 => planning c i | 3 => access c i | 4 => manipulation c i | 5 => exploit c
+  | _ => id
+
+def applyDown (c : Cfg) (i : In) : Nat → St → St
+  | 0, s => bodyAt c i 0 s
+  | r + 1, s => applyDown c i r (bodyAt c i (r + 1) s)
+
+theorem bodies_eq (c : Cfg) (i : In) (s : St) : bodies c i s = applyDown c i 5 s := rfl
+
+theorem bodyAt_skip (c : Cfg) (i : In) (r : Nat) (s : St) (h : rank s.cur ≠ r) : bodyAt c i r s = s := by
+  match r with
+  | 0 => exact tapStart_skip s (by intro hc; simp [hc, rank] at h)
+  | 1 => exact reconnaissance_skip s (by intro hc; simp [hc, rank] at h)
+  | 2 => exact planning_skip c i s (by intro hc; simp [hc, rank] at h)
+  | 3 => exact access_skip c i s (by intro hc; simp [hc, rank] at h)
+  | 4 => exact manipulation_skip c i s (by intro hc; simp [hc, rank] at h)
+  | 5 => exact exploit_skip c s (by intro hc; simp [hc, rank] at h)
+  | _ + 6 => rfl
+
+theorem applyDown_skip (c : Cfg) (i : In) : ∀ (r : Nat) (s : St), r < rank s.cur → applyDown c i r s = s := by
+  intro r
+  induction r with
+  | zero => intro s h; exact bodyAt_skip c i 0 s (by omega)
+  | succ r ih =>
+    intro s h
+    simp only [applyDown]
+    rw [bodyAt_skip c i (r + 1) s (by omega)]
+    exact ih s (by omega)
+
+theorem applyDown_reach (c : Cfg) (i : In) (s : St) :
+    ∀ (r : Nat), rank s.cur ≤ r → applyDown c i r s = applyDown c i (rank s.cur) s := by
+  intro r
+  induction r with
+  | zero => intro h; have : rank s.cur = 0 := by omega
+            rw [this]
+  | succ r ih =>
+    intro h
+    rcases Nat.lt_or_ge (rank s.cur) (r + 1) with hlt | hge
+    · simp only [applyDown]
+      rw [bodyAt_skip c i (r + 1) s (by omega)]
+      exact ih (by omega)
+    · have : rank s.cur = r + 1 := by omega
+      rw [this]
+
+theorem bodyAt_fire (c : Cfg) (i : In) (x : Stage) (hx : x.chain = true) (s : St) (h : s.cur = x) (hn : s.nxt = x.succ) :
+    Res x (bodyAt c i (rank x) s) := by
+  cases x <;> simp [Stage.chain] at hx
+  · exact reconnaissance_fire s h hn
+  · exact planning_fire c i s h hn
+  · exact access_fire c i s h hn
+  · exact manipulation_fire c i s h hn
+  · exact exploit_fire c s h hn
+
+theorem res_rank (x : Stage) (hx : x.chain = true) (s : St) (h : Res x s) : rank x ≤ rank s.cur := by
+  rcases h with ⟨h, _⟩ | ⟨h, _⟩ | h <;> rw [h] <;> cases x <;> simp_all [Stage.chain, rank, Stage.succ]
+
+/-- From a kill-chain stage `x` the stage methods together stay, advance to the successor of `x`, or fail. -/
+theorem bodies_chain (c : Cfg) (i : In) (x : Stage) (hx : x.chain = true) (s : St) (h : s.cur = x) (hn : s.nxt = x.succ) :
+    Res x (bodies c i s) := by
+  have hr : 1 ≤ rank x ∧ rank x ≤ 5 := by cases x <;> simp_all [Stage.chain, rank]
+  rw [bodies_eq, applyDown_reach c i s 5 (by rw [h]; exact hr.2), h]
+  obtain ⟨k, hk⟩ : ∃ k, rank x = k + 1 := ⟨rank x - 1, by omega⟩
+  have hfire := bodyAt_fire c i x hx s h hn
+  have hrk := res_rank x hx _ hfire
+  rw [hk] at hfire hrk ⊢
+  simp only [applyDown]
+  rw [applyDown_skip c i k _ (by omega)]
+  exact hfire
+
+theorem bodies_notStarted (c : Cfg) (i : In) (s : St) (h : s.cur = .notStarted) :
+    (bodies c i s).cur = .reconnaissance ∧ (bodies c i s).nxt = .planning := by
+  rw [bodies_eq, applyDown_reach c i s 5 (by rw [h]; simp [rank]), h]
+  exact tapStart_fire s h
+
+theorem bodies_terminal (c : Cfg) (i : In) (s : St) (h : s.cur = .succeeded ∨ s.cur = .failed) : bodies c i s = s := by
+  rw [bodies_eq]
+  exact applyDown_skip c i 5 s (by rcases h with h | h <;> rw [h] <;> simp [rank])
+
+/-! the whole tick -/
+
+theorem setNext_fields (c : Cfg) (s : St) (b d : Int) :
+    (setNext c s b d).cur = s.cur ∧ (setNext c s b d).nxt = s.nxt ∧ (setNext c s b d).concluded = s.concluded := by
+  simp only [setNext, St.raise]; split <;> simp
+
+theorem setNext_chosen (c : Cfg) (s : St) (b d : Int) : (setNext c s b d).chosen = s.chosen := by
+  simp only [setNext, St.raise]; split <;> rfl
+
+theorem outcome_other (c : Cfg) (s : St) (h1 : s.cur ≠ .succeeded) (h2 : s.cur ≠ .failed) : outcomeHandler c s = s := by
+  simp [outcomeHandler, h1, h2]
+
+theorem outcome_terminal (c : Cfg) (s : St) (h : s.cur = .succeeded ∨ s.cur = .failed) (hc : s.concluded = false) :
+    (c.repeatKillChain = true → (outcomeHandler c s).cur = .notStarted ∧ (outcomeHandler c s).nxt = .reconnaissance ∧
+        (outcomeHandler c s).concluded = false) ∧
+    (c.repeatKillChain = false → (outcomeHandler c s).cur = s.cur ∧ (outcomeHandler c s).nxt = s.nxt ∧
+        (outcomeHandler c s).concluded = true) := by
+  unfold outcomeHandler
+  rw [if_pos h]
+  simp only [hc, Bool.false_eq_true, if_false]
+  constructor
+  · intro hr; simp [hr]
+  · intro hr; simp [hr]
+
+theorem passes_returnHandler (c : Cfg) (h : Hist) (s : St) (hp : passes h (returnHandler c h s) = true)
+    (hs : s.cur ≠ .failed) : returnHandler c h s = s := by
+  unfold returnHandler at hp ⊢
+  split
+  · rename_i hcond
+    rw [if_pos hcond] at hp
+    simp [passes, hcond.1] at hp
+  · rfl
+
+theorem returnHandler_soft (c : Cfg) (h : Hist) : Soft (returnHandler c h) := by
+  intro s; unfold returnHandler; split <;> simp
+
+theorem returnHandler_failed_iff (c : Cfg) (h : Hist) (s : St) (hne : (returnHandler c h s).cur ≠ s.cur) :
+    (returnHandler c h s).cur = .failed ∧ c.repeatStages = false := by
+  unfold returnHandler at hne ⊢
+  split
+  · rename_i hcond; exact ⟨rfl, by simpa using hcond.2⟩
+  · rename_i hcond; rw [if_neg hcond] at hne; exact absurd rfl hne
+
+theorem mainPath_stage (c : Cfg) (s : St) (t : Int) (i : In) (hinv : Inv s) (hcon : s.concluded = false) :
+    Allowed c s.cur (mainPath c s t i).cur ∧ Inv (mainPath c s t i) := by
+  unfold mainPath
+  generalize hs2 : setNext c { s with curT := t } (t + c.frequency) i.d1 = s2
+  have h2 : s2.cur = s.cur ∧ s2.nxt = s.nxt ∧ s2.concluded = false := by
+    subst hs2
+    have := setNext_fields c { s with curT := t } (t + c.frequency) i.d1
+    simpa [hcon] using this
+  by_cases hterm : s.cur = .succeeded ∨ s.cur = .failed
+  · have ht2 : s2.cur = .succeeded ∨ s2.cur = .failed := by rw [h2.1]; exact hterm
+    obtain ⟨hrep, hnorep⟩ := outcome_terminal c s2 ht2 h2.2.2
+    cases hr : c.repeatKillChain with
+    | true =>
+      obtain ⟨hc, hn, _⟩ := hrep hr
+      obtain ⟨hb1, hb2⟩ := bodies_notStarted c i _ hc
+      refine ⟨?_, Or.inr (by rw [hb1, hb2]; rfl)⟩
+      rw [hb1]
+      exact Or.inr (Or.inr (Or.inr (Or.inr (Or.inl ⟨hr, hterm, Or.inr rfl⟩))))
+    | false =>
+      obtain ⟨hc, hn, _⟩ := hnorep hr
+      have hterm3 : (outcomeHandler c s2).cur = .succeeded ∨ (outcomeHandler c s2).cur = .failed := by rw [hc]; exact ht2
+      rw [bodies_terminal c i _ hterm3, hc, h2.1]
+      refine ⟨Or.inl rfl, ?_⟩
+      unfold Inv
+      rw [hc, hn, h2.1, h2.2.1]
+      exact hinv
+  · have hns : s.cur ≠ .succeeded := fun h => hterm (Or.inl h)
+    have hnf : s.cur ≠ .failed := fun h => hterm (Or.inr h)
+    rw [outcome_other c s2 (by rw [h2.1]; exact hns) (by rw [h2.1]; exact hnf)]
+    have hnx : s2.nxt = s2.cur.succ := by
+      rcases hinv with h | h
+      · exact absurd h hnf
+      · rw [h2.1, h2.2.1]; exact h
+    by_cases hch : s.cur.chain = true
+    · have hres := bodies_chain c i s.cur hch s2 h2.1 (by rw [hnx, h2.1])
+      rcases hres with ⟨hc, hn⟩ | ⟨hc, hn⟩ | hc
+      · exact ⟨Or.inl hc, Or.inr (by rw [hc, hn])⟩
+      · exact ⟨Or.inr (Or.inl ⟨hch, hc⟩), Or.inr (by rw [hc, hn])⟩
+      · exact ⟨Or.inr (Or.inr (Or.inl hc)), Or.inl hc⟩
+    · by_cases hnst : s.cur = .notStarted
+      · obtain ⟨hb1, hb2⟩ := bodies_notStarted c i s2 (by rw [h2.1]; exact hnst)
+        refine ⟨?_, Or.inr (by rw [hb1, hb2]; rfl)⟩
+        rw [hb1]
+        exact Or.inr (Or.inr (Or.inr (Or.inl ⟨hnst, rfl⟩)))
+      · -- EMBED … ERASE: no stage method matches, nothing changes
+        have hrk : 5 < rank s2.cur := by
+          rw [h2.1]; cases hcur : s.cur <;> simp_all [Stage.chain, rank]
+        rw [bodies_eq, applyDown_skip c i 5 s2 hrk]
+        exact ⟨Or.inl h2.1, Or.inr hnx⟩
+
+
+theorem failPath_stage (c : Cfg) (h : Hist) (s : St) (t : Int) (i : In) (hinv : Inv s) (hcon : s.concluded = false) :
+    Allowed c s.cur (failPath c (returnHandler c h s) t i).cur ∧ Inv (failPath c (returnHandler c h s) t i) := by
+  unfold failPath
+  generalize hs1 : returnHandler c h s = s1
+  have h1 := returnHandler_soft c h s
+  rw [hs1] at h1
+  have h1c : s1.concluded = false := by
+    subst hs1; unfold returnHandler; split <;> simp [hcon]
+  generalize hs2 : setNext c { s1 with curT := t } (t + c.frequency) i.d1 = s2
+  have h2 : s2.cur = s1.cur ∧ s2.nxt = s1.nxt ∧ s2.concluded = false := by
+    subst hs2
+    have := setNext_fields c { s1 with curT := t } (t + c.frequency) i.d1
+    simpa [h1c] using this
+  unfold Inv
+  by_cases hterm : s1.cur = .succeeded ∨ s1.cur = .failed
+  · have ht2 : s2.cur = .succeeded ∨ s2.cur = .failed := by rw [h2.1]; exact hterm
+    obtain ⟨hrep, hnorep⟩ := outcome_terminal c s2 ht2 h2.2.2
+    cases hr : c.repeatKillChain with
+    | true =>
+      obtain ⟨hc, hn, _⟩ := hrep hr
+      rw [hc, hn]
+      refine ⟨?_, Or.inr rfl⟩
+      rcases h1.1 with he | hf
+      · rw [he] at hterm
+        exact Or.inr (Or.inr (Or.inr (Or.inr (Or.inl ⟨hr, hterm, Or.inl rfl⟩))))
+      · by_cases hsame : s1.cur = s.cur
+        · rw [hsame] at hterm
+          exact Or.inr (Or.inr (Or.inr (Or.inr (Or.inl ⟨hr, hterm, Or.inl rfl⟩))))
+        · have := returnHandler_failed_iff c h s (by rw [hs1]; exact hsame)
+          exact Or.inr (Or.inr (Or.inr (Or.inr (Or.inr ⟨hr, this.2, rfl⟩))))
+    | false =>
+      obtain ⟨hc, hn, _⟩ := hnorep hr
+      rw [hc, hn, h2.1, h2.2.1]
+      rcases h1.1 with he | hf
+      · refine ⟨Or.inl he, ?_⟩
+        rw [he, h1.2]; exact hinv
+      · exact ⟨Or.inr (Or.inr (Or.inl hf)), Or.inl hf⟩
+  · have hns : s1.cur ≠ .succeeded := fun h => hterm (Or.inl h)
+    have hnf : s1.cur ≠ .failed := fun h => hterm (Or.inr h)
+    rw [outcome_other c s2 (by rw [h2.1]; exact hns) (by rw [h2.1]; exact hnf), h2.1, h2.2.1]
+    rcases h1.1 with he | hf
+    · refine ⟨Or.inl he, ?_⟩
+      rw [he, h1.2]; exact hinv
+    · exact absurd hf hnf
+
+theorem preGuard_fields (c : Cfg) (s : St) :
+    (preGuardHandlers c s).cur = s.cur ∧ (preGuardHandlers c s).nxt = s.nxt ∧
+    (preGuardHandlers c s).concluded = s.concluded ∧ (preGuardHandlers c s).nextExec = s.nextExec := by
+  have hl : ∀ s : St, (handleLogin s).cur = s.cur ∧ (handleLogin s).nxt = s.nxt ∧
+      (handleLogin s).concluded = s.concluded ∧ (handleLogin s).nextExec = s.nextExec := by
+    intro s; unfold handleLogin; repeat' split
+    all_goals simp [St.raise]
+  have hp : ∀ s : St, (handleChangePw c s).cur = s.cur ∧ (handleChangePw c s).nxt = s.nxt ∧
+      (handleChangePw c s).concluded = s.concluded ∧ (handleChangePw c s).nextExec = s.nextExec := by
+    intro s; unfold handleChangePw; repeat' split
+    all_goals simp
+  unfold preGuardHandlers
+  have a := hl s
+  have b := hp (handleLogin s)
+  exact ⟨by rw [b.1, a.1], by rw [b.2.1, a.2.1], by rw [b.2.2.1, a.2.2.1], by rw [b.2.2.2, a.2.2.2]⟩
+
+theorem reasonCheck_fields (h : Hist) (s : St) :
+    (reasonCheck h s).cur = s.cur ∧ (reasonCheck h s).nxt = s.nxt ∧ (reasonCheck h s).concluded = s.concluded := by
+  unfold reasonCheck; split <;> simp [St.raise]
+
+theorem getActionCore_stage (c : Cfg) (s : St) (t : Int) (i : In) (hinv : Inv s) :
+    Allowed c s.cur (getActionCore c s t i).1.cur ∧ Inv (getActionCore c s t i).1 := by
+  unfold getActionCore
+  split
+  · exact ⟨Or.inl rfl, hinv⟩
+  · rename_i hex
+    have hcon : s.concluded = false := by
+      simp [executes] at hex; exact hex.2
+    split
+    · exact ⟨Or.inl rfl, hinv⟩
+    · rename_i h _
+      split
+      · rename_i hp
+        have hid : returnHandler c h s = s := by
+          unfold returnHandler at hp ⊢
+          split
+          · rename_i hcond; rw [if_pos hcond] at hp; simp [passes, hcond.1] at hp
+          · rfl
+        simp only [hid]
+        have hr := reasonCheck_fields h s
+        have hinv' : Inv (reasonCheck h s) := by unfold Inv; rw [hr.1, hr.2.1]; exact hinv
+        have := mainPath_stage c (reasonCheck h s) t i hinv' (by rw [hr.2.2]; exact hcon)
+        rw [hr.1] at this
+        exact this
+      · exact failPath_stage c h s t i hinv hcon
+
+theorem getAction_stage (c : Cfg) (s : St) (t : Int) (i : In) (hinv : Inv s) :
+    Allowed c s.cur (getAction c s t i).1.cur ∧ Inv (getAction c s t i).1 := by
+  unfold getAction
+  have hp := preGuard_fields c s
+  have hinv' : Inv (preGuardHandlers c s) := by unfold Inv; rw [hp.1, hp.2.1]; exact hinv
+  have := getActionCore_stage c (preGuardHandlers c s) t i hinv'
+  rw [hp.1] at this
+  exact this
+
+theorem C19_tap3_stage_step (c : Cfg) (s : St) (t : Int) (i : In) (hinv : Inv s) :
+    Allowed c s.cur (step c s t i).1.cur ∧ Inv (step c s t i).1 := by
+  unfold step
+  split
+  · exact ⟨Or.inl rfl, hinv⟩
+  · split
+    · exact ⟨Or.inl rfl, hinv⟩
+    · have := getAction_stage c s t i hinv
+      exact ⟨this.1, this.2⟩
+
+/-! runs: consecutive timesteps from 0, arbitrary draws and responses -/
+
+/-- States after each tick of a run that feeds timesteps `t, t+1, …`. -/
+def run (c : Cfg) : St → Int → List In → List St
+  | _, _, [] => []
+  | s, t, i :: is => (step c s t i).1 :: run c (step c s t i).1 (t + 1) is
+
+/-- Every consecutive pair of sampled stages is related by `R`. -/
+def Linked (R : Stage → Stage → Prop) : Stage → List St → Prop
+  | _, [] => True
+  | a, s :: rest => R a s.cur ∧ Linked R s.cur rest
+
+theorem run_stage (c : Cfg) : ∀ (ins : List In) (s : St) (t : Int), Inv s →
+    Linked (Allowed c) s.cur (run c s t ins) ∧ ∀ s' ∈ run c s t ins, Inv s' := by
+  intro ins
+  induction ins with
+  | nil => intro s t _; exact ⟨trivial, by simp [run]⟩
+  | cons i is ih =>
+    intro s t hinv
+    obtain ⟨ha, hi⟩ := C19_tap3_stage_step c s t i hinv
+    obtain ⟨h1, h2⟩ := ih _ (t + 1) hi
+    refine ⟨⟨ha, h1⟩, ?_⟩
+    intro s' hs'
+    simp only [run, List.mem_cons] at hs'
+    rcases hs' with rfl | hs'
+    · exact hi
+    · exact h2 s' hs'
+
+/-- **stage_monotone** (TAP003). For every configuration, every schedule/trial/scan draw and every sequence of
+simulator responses, the stage sampled after each tick is related to the previous one by `Allowed`: it stays,
+moves to the *next* stage of the chain (EXPLOIT's next is SUCCEEDED), becomes FAILED, leaves NOT_STARTED for
+RECONNAISSANCE, or — only with `repeat_kill_chain` — restarts from SUCCEEDED/FAILED. -/
+theorem C19_tap3_stage_monotone (c : Cfg) (d0 : Int) (s0 : St) (ins : List In) (h0 : init c d0 = some s0) :
+    Linked (Allowed c) s0.cur (run c s0 0 ins) ∧ ∀ s ∈ run c s0 0 ins, Inv s := by
+  have hinv : Inv s0 := by
+    unfold init at h0
+    split at h0
+    · cases h0; exact Or.inr rfl
+    · cases h0
+  exact run_stage c ins s0 0 hinv
+
+/-- **no_skip**: a stage other than the first is only ever entered from its predecessor. -/
+theorem C19_tap3_no_skip (c : Cfg) (a b : Stage) (h : Allowed c a b) (hb : b.chain = true) (hne : b ≠ a)
+    (hfirst : b ≠ .reconnaissance) : a.chain = true ∧ b = a.succ := by
+  rcases h with h | ⟨hc, h⟩ | h | ⟨_, h⟩ | ⟨_, _, h | h⟩ | ⟨_, _, h⟩
+  · exact absurd h hne
+  · exact ⟨hc, h⟩
+  · rw [h] at hb; simp [Stage.chain] at hb
+  · exact absurd h hfirst
+  · rw [h] at hb; simp [Stage.chain] at hb
+  · exact absurd h hfirst
+  · rw [h] at hb; simp [Stage.chain] at hb
+
+/-- The enum members EMBED, CONCEAL, EXTRACT, ERASE are never entered: no stage has any of them as its successor
+in `Allowed`, so a run that starts in NOT_STARTED never shows them. -/
+theorem C19_tap3_never_past_exploit (c : Cfg) (a b : Stage) (h : Allowed c a b)
+    (ha : a ≠ .embed ∧ a ≠ .conceal ∧ a ≠ .extract ∧ a ≠ .erase) :
+    b ≠ .embed ∧ b ≠ .conceal ∧ b ≠ .extract ∧ b ≠ .erase := by
+  revert h ha
+  cases a <;> cases b <;> simp [Allowed, Stage.succ, Stage.chain]
+
+/-- **ends_per_settings (absorbing)** for TAP003: once concluded, the stage, the schedule and the flag never change and
+every action is do-nothing (the two response handlers still update the agent's session bookkeeping). -/
+theorem C19_tap3_concluded_absorbing (c : Cfg) (s : St) (t : Int) (i : In) (h : s.concluded = true) :
+    (getAction c s t i).2 = Act.nothing ∧ (getAction c s t i).1.cur = s.cur ∧
+    (getAction c s t i).1.concluded = true ∧ (getAction c s t i).1.nextExec = s.nextExec := by
+  have hp := preGuard_fields c s
+  unfold getAction getActionCore
+  rw [if_pos (by simp [executes, hp.2.2.1, h])]
+  exact ⟨rfl, hp.1, by rw [hp.2.2.1]; exact h, hp.2.2.2⟩
+
+def exCfg : Cfg :=
+  { startStep := 1, frequency := 1, variance := 0, repeatKillChain := true, repeatStages := true,
+    pPlanning := ⟨1, 1⟩, pAccess := ⟨1, 1⟩, pManipulation := ⟨1, 1⟩, pExploit := ⟨1, 1⟩, startNode := 0,
+    accountChanges := [0, 1], acls := [1], creds0 := [(0, false), (1, true)] }
+
+def exIn : In := { d1 := 0, u := ⟨0, 1⟩, resp := { ok := true } }
+
+/-- Non-vacuity: all responses successful, repeat on: the agent walks the five implemented stages, succeeds and restarts. -/
+example : ∃ s0, init exCfg 0 = some s0 ∧
+    ((run exCfg s0 0 (List.replicate 16 exIn)).map (·.cur)).eraseDups
+      = [.notStarted, .reconnaissance, .planning, .access, .manipulation, .exploit, .succeeded] := by
+  refine ⟨_, rfl, ?_⟩; decide
+
+end Tap3
 
 /-! ## 7. Translator tie: the tables regenerated from the source equal what the models assume -/
 
